@@ -403,9 +403,13 @@ class Frame:
             c = self.cond(st.test, env)
             env_t = dict(env)
             env_f = dict(env)
+            n_exits = len(self.returns) + len(self.breaks) + len(self.continues)
             live_t = self.block(st.body, env_t, g_and(guard, c))
             live_f = self.block(st.orelse, env_f, g_and(guard, g_not(c)))
             self.merge(env, c, env_t, live_t, env_f, live_f)
+            if len(self.returns) + len(self.breaks) + len(self.continues) == n_exits and live_t.kind != "false" \
+                    and live_f.kind != "false":
+                return guard          # no branch left the block: control rejoins unchanged
             return g_or(live_t, live_f)
         if isinstance(st, (ast.For, ast.While)):
             return self.loop(st, env, guard)
@@ -499,6 +503,12 @@ class Frame:
             nm = norm_text(base)
             idx = self.expr(t.slice, env)
             self.events.append(Event(guard, "store", nm, (idx, v), st, self.havoc_depth))
+            if isinstance(base, ast.Name) and isinstance(env.get(base.id), Obj) and env[base.id].tag == "dict" \
+                    and self.havoc_depth == 0:
+                d = env[base.id]
+                k = vkey(idx)
+                entries = tuple(e for e in d.val if e[0] != k) + ((k, vkey(v), v),)
+                env[base.id] = Obj("dict", entries)
             # dictionaries / arrays are not modelled element by element: the container becomes opaque
             return
         if isinstance(t, ast.Attribute):
@@ -692,11 +702,15 @@ class Frame:
                 pos = True
             elif isinstance(op, (ast.IsNot, ast.NotEq)):
                 pos = False
-            elif isinstance(op, ast.In):
-                g = g_atom(("in", ka, kb))
-                return g
-            elif isinstance(op, ast.NotIn):
-                return g_not(g_atom(("in", ka, kb)))
+            elif isinstance(op, (ast.In, ast.NotIn)):
+                if isinstance(b, Obj) and b.tag == "dict":
+                    present = any(e[0] == ka for e in b.val)
+                    g = TRUE if present else FALSE
+                elif isinstance(b, Vec) and b.kind == "list" and not b.items:
+                    g = FALSE
+                else:
+                    g = g_atom(("in", ka, kb))
+                return g if isinstance(op, ast.In) else g_not(g)
             else:
                 return g_atom(("cmp", opname, ka, kb))
             for u, w in ((a, b), (b, a)):
